@@ -1715,6 +1715,22 @@ def run_c17(o, tier, rng, prep):
                 o.violation("input", "process spins after end of input following %r" % base[:cut], {"script": base[:cut]})
         finally:
             eng.close()
+    # end of input directly after every kind of last line (blank, white space only, garbage, a command, a go)
+    for last in ["", " ", "   \t ", "\u2003", "xyzzy", "isready", "ucinewgame", "position startpos moves e2e4", "go wtime 110 btime 110", "setoption name X value Y"]:
+        for pre in (["uci"], ["uci", "position startpos", "go wtime 105 btime 105"]):
+            eng = blackbox.Engine(V.BINARY)
+            try:
+                for l in pre + [last]:
+                    eng.send(l)
+                time.sleep(0.03)
+                eng.close_stdin()
+                st = eng.wait_exit(4)
+                o.evaluations += 1
+                if st is None:
+                    ok = False
+                    o.violation("input", "process still running 4 s after end of input that follows the line %r (session %r)" % (last, pre), {"script": pre + [last]})
+            finally:
+                eng.close()
     o.oblige("garbage ignored, isready answered, quit and end of input end the process (real binary)", ok)
     o.rule = "strings over the 25 Unicode White_Space characters, look-alikes that are not white space (U+200B, U+180E, U+FEFF, U+001C..1F) and text for clean_input; sessions on the real binary mixing unknown commands, empty and white-space lines, Unicode garbage, go with unknown tokens and isready, ended alternately by quit and by closing stdin; end of input after every prefix of a six-line session; non-trivial = non-empty cleaned line / one session"
     o.assumptions.append("lines are valid UTF-8 text (UCI is a text protocol); malformed values of known go tokens are outside the property's domain")
